@@ -269,12 +269,25 @@ Theorem elementwise_vector_right_shift_refuted :
   map (fun i => ew_fun 0 (vcell H a i) (vcell H b i)) [0; 1; 2] = [11; 12; 13].
 Proof. exact vew_right_shift_refuted. Qed.
 
+(* MaddM / MsubM / MmulM: every operand is the receiver's own view or lives in another backing array *)
+Theorem elementwise_matrix_alias_safe :
+  forall (real : bool) (f : Z) (r a b : mat) (H0 : heap),
+  wfh H0 r -> opd_ok H0 r a -> opd_ok H0 r b ->
+  exists H', mEw real f H0 r a b = ROk H' /\
+    (forall i j, in_range r i j -> mAT real H' r i j = ROk (ew_fun f (cell H0 a i j) (cell H0 b i j))) /\
+    (forall l, l <> d_values r -> store_of H' l = store_of H0 l).
+Proof. exact mew_alias_safe. Qed.
+Theorem elementwise_matrix_transposed_receiver_refuted :   (* r = a.T(); r.MaddM(a, 0) should leave a.T() = [1;3;2;4] *)
+  let H := [[1; 2; 3; 4]; [0; 0; 0; 0]] in let a := new_mat 0 2 2 in let r := k_T false a in let b := new_mat 1 2 2 in
+  exists H', mEw false 0 H r a b = ROk H' /\ read_all false H' r = ROk [1; 2; 2; 4].
+Proof. exact mew_transposed_refuted. Qed.
+
 (* Not proved (stated for the record; tied by the correspondence and searched by the hunt only):
    mdotm_disjoint_views_of_one_array_partial — r == b with a a DISJOINT view of the same backing array, and
      receivers that are disjoint from both factors inside one backing array: the product is right (the hunt's
      "safe" classes MdotM:r=b / MdotM:no-overlap include them), the theorems above require separate arrays;
-   elementwise_matrix_partial — MaddM/MsubM/MmulM on identical or disjoint views (model C10.Model.mEw): replayed
-     and hunted, no theorem; shifted / transposed overlapping matrix views: characterised by the model only;
+   elementwise_matrix_views_partial — MaddM/MsubM/MmulM with an operand that is a DISJOINT view of the receiver's
+     backing array (safe) or a shifted overlapping view (unsafe in general): replayed and hunted, no theorem;
    reductions_partial — Vmean, VdotV, Vnorm, Mtrace, Mnorm, SmoothMax, LogSmoothMax with the receiver (or a
      temporary) among the vector elements: outside the alias patterns of this check (C01 replays them without
      aliasing). *)
